@@ -42,7 +42,9 @@ MANIFEST = {
             "check; exhaustive scripts over 4 keys plus long random scripts. EXPLORED ONLY (oracle EditHistory, no proof): whole "
             "edit histories through create-by-path, dup, merge, diff apply, implicit nodes, validate; schema order between "
             "different nodes; user-ordered lists; the children hash table; every search function = scan.",
-    "note": "Not modelled in Coq: lyds_split, lyds_merge (4 cases), lyds_insert2 / lyds_pool (dup), rb_iter_traversal, parent-pointer "
+    "note": "Not modelled in Coq: lyds_split, lyds_merge (4 cases; exercised by the sorted-order oracle against the abstract "
+            "sequence semantics with the white-box checker and ASan - this found the uninitialised *next_p of lyds_merge_nodes2, fixed "
+            "in /repo cefb23b), lyds_insert2 / lyds_pool (dup), rb_iter_traversal, parent-pointer "
             "and metadata link-level details (checked by the driver's checker only), ChildIdx/Edit layers of DESIGN.md C04 "
             "(slice ht covers the hash table itself). The known finding implicit-toplevel-order belongs to the explored part.",
     "technique": "Coq proof over hand-written model (ordering kernel) + differential correspondence incl. exact tree shape "
